@@ -47,6 +47,8 @@ func checkC05(ctx *Ctx) *Result {
 	intRule(ctx, r, "R4.3")
 	closedErrorUniverse(ctx, r, "R5.2")
 	errorMessages(ctx, r, "R5.4")
+	r.rule("R4.8", "the switches the validators consult are copied from the Config on every path before they run (a violation in one field must not hide violations in another)", 1)
+	builderPlumbing(ctx, r, "R4.8")
 	return r
 }
 
